@@ -24,6 +24,9 @@ type PlanC17 struct {
 	// Abort[i] = k > 0: client i resets its connection (RST) right after its k-th message, without
 	// waiting for the replies: the server's writes on that session fail while the others go on
 	Abort []int `json:"abort,omitempty"`
+	// NCmd[i]: client i also runs that many request/response exchanges (ProcessCommand) with
+	// command ids that every client uses alike ("q0", "q1", ...): ids only mean something per session
+	NCmd []int `json:"n_cmd,omitempty"`
 }
 
 func genC17(t *simrt.Tape, tier string) interface{} {
@@ -43,6 +46,7 @@ func genC17(t *simrt.Tape, tier string) interface{} {
 			ab = 1 + t.Draw(3)
 		}
 		p.Abort = append(p.Abort, ab)
+		p.NCmd = append(p.NCmd, []int{0, 0, 1, 3}[t.Draw(4)])
 	}
 	for i := t.Draw(3); i > 0; i-- {
 		p.SrvDelay = append(p.SrvDelay, []int{0, 1, 20}[t.Draw(3)])
@@ -75,6 +79,19 @@ func runC17(w *World, pi interface{}) {
 		return
 	}
 	f.OnEnv = func(ctx context.Context, kind int, env interface{}, s lime.Sender) error {
+		if rq, isReq := env.(*lime.RequestCommand); isReq {
+			// answered through the sender that came with the request, tagged with the session of its context
+			sid, _ := lime.ContextSessionID(ctx)
+			resp := &lime.ResponseCommand{}
+			resp.ID = rq.ID
+			resp.Method = rq.Method
+			resp.Status = lime.CommandStatusSuccess
+			resp.Metadata = map[string]string{"sid": sid}
+			rctx, cancel := context.WithTimeout(ctx, 30*time.Second)
+			defer cancel()
+			s.SendResponseCommand(rctx, resp)
+			return nil
+		}
 		m, ok := env.(*lime.Message)
 		if !ok {
 			return nil
@@ -202,6 +219,25 @@ func runC17(w *World, pi interface{}) {
 					time.Sleep(time.Duration(p.GapMs[i]) * time.Millisecond)
 				}
 			}
+			if i < len(p.NCmd) {
+				for j := 0; j < p.NCmd[i]; j++ {
+					cmd := &lime.RequestCommand{}
+					cmd.ID = fmt.Sprintf("q%d", j)
+					cmd.Method = lime.CommandMethodGet
+					cmd.SetURIString("/whoami")
+					pctx, pcancel := context.WithTimeout(context.Background(), 30*time.Second)
+					resp, err := ch.ProcessCommand(pctx, cmd)
+					pcancel()
+					switch {
+					case err != nil && strings.Contains(err.Error(), "already in use"):
+						w.Violate("C17.command-id-collides-across-sessions", "in-use", "client %d (session %s) was refused command id %q as already in use, although nothing is pending on its own session: %v", i, c.sid, cmd.ID, err)
+					case err == nil && resp != nil && resp.Metadata["sid"] != c.sid:
+						w.Violate("C17.reply-crossed-sessions", "command", "client %d (session %s) got, for its command %q, the response the server wrote on session %q", i, c.sid, cmd.ID, resp.Metadata["sid"])
+					case err != nil:
+						w.Count("command-failed")
+					}
+				}
+			}
 			// wait for the replies
 			w.Eventually(time.Minute, func() bool { return len(c.got) >= len(c.sent) })
 		}()
@@ -276,7 +312,7 @@ func init() {
 		Gen:    genC17,
 		Run:    runC17,
 		MaxSim: 2 * time.Hour,
-		Rule: "plans = (one server with 1-3 listeners of mixed kinds, 2-6 concurrent real clients over mixed transports with start offsets and per-write latency, registration assigning derived or colliding-looking addresses, 1-6 tagged messages per client, clients that reset their connection after their k-th message, " +
+		Rule: "plans = (one server with 1-3 listeners of mixed kinds, 2-6 concurrent real clients over mixed transports with start offsets and per-write latency, registration assigning derived or colliding-looking addresses, 1-6 tagged messages per client, clients that reset their connection after their k-th message, request/response exchanges with command ids shared by all clients, " +
 			"handler delays; every handler records ContextSessionID/RemoteNode/LocalNode and replies through the Sender it was handed); oracle: context values equal those of the session the envelope was sent on, replies reach the originator and nobody else, " +
 			"announced ids pairwise distinct and known to the server; non-trivial = server started; distinct = distinct (plan JSON, event-log hash)",
 	})
